@@ -2,6 +2,7 @@ import RsModel.Model.Stream
 import RsModel.Lemmas.ProvTree3
 import RsModel.Lemmas.ReplaceOrig
 import RsModel.Lemmas.ProvChunks
+import RsModel.Lemmas.ProvBytes
 /-!
 # C04 — mappings point to where the text really came from
 (leaf level: an OriginalSource maps every token to its own position; the composites are tied by correspondence)
@@ -173,5 +174,27 @@ theorem c04_replace_tree_map (cons : Text → Option Text) (inner : Src) (ho : i
       ∃ name T q, sm.sources[o.src]? = some name ∧ sm.sourcesContent[o.src]? = some T ∧ q < T.length
         ∧ adv startPos (T.take q) = ⟨o.line, o.col⟩ :=
   replace_origTree_map cons inner ho hw hasc rs hr hlen final hsmall sm hm
+
+
+/-- **C04 through `map()`, byte by byte** (ReplaceSource over any ConcatSource tree of OriginalSource / raw leaves): for every byte
+`i` of `source()` whose position the returned SourceMap resolves to `o`: through the map's own `sources` / `sourcesContent`, `o`
+names a file with its exact content `T` and the true line and column of a byte `q` of `T`; and either byte `i` *is* the original
+byte `T[q + d]`, whose own true position is `o`'s line and `o`'s column plus `d` — a surviving original character is attributed to
+its own file and its own original line, at a column not after its own, by a segment that starts on an original character —
+or byte `i` belongs to the content of one of the replacements (generated text, attributed to where it was spliced in).
+This is the property's statement for columns = true on this family of trees; chain: C12 (codec) ∘ C03-T3 (text-less = normal
+mode) ∘ `attrOf` (bytes of a chunk share its mapping) ∘ `c04_replace_tree_stream` ∘ the table relation `mapAcc_tblRel`. -/
+theorem c04_replace_tree_map_bytes (cons : Text → Option Text) (inner : Src) (ho : inner.OrigTree) (hw : Src.WD cons true inner)
+    (hasc : ∀ n T, cons n = some T → IsAscii T ∧ T.length < USIZE_MAX) (rs : List Repl)
+    (hr : ∀ r ∈ rs, r.start ≤ r.stop) (hlen : (replaceSource inner.src rs).length + 1 < 2 ^ 32) (final : Bool)
+    (hsmall : ∀ m ∈ chunkMs ((Src.replace inner rs).stream ⟨true, true⟩ []).1.evs, m.small)
+    (sm : SMap) (hm : (getMap (.replace inner rs) ⟨true, final⟩ []).1 = some sm) :
+    ∀ (i : Nat) (o : Orig), (attrFrom (decode sm.mappings) startPos (replaceSource inner.src rs))[i]? = some (some o) →
+      ∃ (name T : Text) (q d : Nat), sm.sources[o.src]? = some name ∧ sm.sourcesContent[o.src]? = some T ∧ q < T.length
+        ∧ adv startPos (T.take q) = ⟨o.line, o.col⟩
+        ∧ ((q + d < T.length ∧ (replaceSource inner.src rs)[i]? = T[q + d]?
+              ∧ adv startPos (T.take (q + d)) = ⟨o.line, o.col + d⟩)
+            ∨ (∃ r ∈ sortRepls rs, ∃ cl ∈ splitLines r.content, d < cl.length ∧ (replaceSource inner.src rs)[i]? = cl[d]?)) :=
+  replace_origTree_map_bytes cons inner ho hw hasc rs hr hlen final hsmall sm hm
 
 end Rs
